@@ -21,7 +21,7 @@ SHIFTS = [1, -1, 0x10, -0x10, 0x100, -0x100, 0x1000, -0x1000, 0x2F, 0xB000]
 BASE_ORG = 0x2000
 LOW_ORG = 1                      # second base origin: the bottom of memory, where label-n can fall below 0
 LOW_SHIFTS = [-1, 1, 0x4F]
-RENAMES = [["Q", "ZZ9", "LOOP1", "a1"], ["SU", "XS", "PCX", "DPY"], ["XS", "SU", "a1", "Q"], ["PCRL", "AB", "DD", "CCX"], ["9LIVES", "2ND", "3D", "7UP"], ["N", "LEN", "E", "ENTRY"]]      # the last map: one-letter names contained in the next name
+RENAMES = [["Q", "ZZ9", "LOOP1", "a1"], ["SU", "XS", "PCX", "DPY"], ["XS", "SU", "a1", "Q"], ["PCRL", "AB", "DD", "CCX"], ["9LIVES", "2ND", "3D", "7UP"], ["N", "LEN", "E", "ENTRY"], ["EACH", "BH", "FACE", "ADD"]]      # the last maps: one-letter names contained in the next name; names that read as hex digits (with or without a trailing H)
 FORMATS = ["space1", "tabs", "space8", "nocomment", "comment.x", "comment.hostile", "comment.wide", "mnem.lower", "mnem.mixed", "trailing.ws", "crlf", "eof.no-newline"]
 ABS_TAGS = {"ext.lbl", "ext.lbl.p", "ext.lbl+1", "imm.lbl", "imm.lbl.p", "extind.lbl", "idx.lbl", "idx.lbl.p", "ind.lbl", "imm.lbl+1",
             "idx.lbl+1", "extind.lbl+1"}
